@@ -48,6 +48,9 @@ CLAIMED = {
  "C17": dict(technique="static analysis: dominance order and provenance in the append worker (filter before ids/tokens/stats), field-coverage of the duplicate filter, exclusive-prefix-sum shape of the token offsets, lockset rule that SetMultiple decides and stores under one write-lock hold, first-writer-wins dominance rule, dedup-before-cut order in MergeQPRs",
              text="The mechanisms that keep a re-delivered document single (atomic first-writer-wins, filtering the collector before anything is indexed, rebuilding all per-document columns, de-duplicating merged results before the cut) are decided structurally on all paths. Arithmetic details of the filter and effects on aggregations are not decided.",
              note="Trusted: go/ssa; lock identity by access path.", ref="§3 C17"),
+ "C14": dict(technique="static analysis: dominance rules that pruning predicates default to 'may intersect', unit-pair and field-coverage rules for the persisted occupancy map, sibling rule that search and fetch use one predicate and one index function, every-id rule for building the map, provenance of the fetch window from the sorted id list",
+             text="Soundness of pruning rests on a few structural facts that are decided on all paths: unknown means intersects, persisted units agree, the map is complete and built before it is persisted, search and fetch ask the same question, the fetch window spans all requested ids. Bitmask arithmetic and border binary searches are value-level and not decided.",
+             note="Trusted: go/ssa; time-unit functions classified by name.", ref="§3 C14"),
 }
 
 NOT_YET = "check not built yet in this round (planned in DESIGN.md §3); nothing is claimed for it"
